@@ -25,9 +25,10 @@ type HostCall struct {
 }
 
 type HostSpec struct {
-	Threads int        `json:"threads"`
-	Calls   []HostCall `json:"calls"`
-	Out     string     `json:"out,omitempty"`
+	Threads    int        `json:"threads"`
+	Calls      []HostCall `json:"calls"`
+	Out        string     `json:"out,omitempty"`
+	Concurrent bool       `json:"concurrent,omitempty"` // real .so only: threads run freely, no baton
 }
 
 type hostResult struct {
@@ -68,6 +69,23 @@ func runC16(c *Ctx) error {
 			floods = append(floods, []byte(b.String()))
 		}
 	}
+	// the repository's own sample programs, as they are and under other layouts
+	if files, _ := filepath.Glob(filepath.Join(c.sc.Src, "internal", "parser", "testdata", "*.dsl")); len(files) > 0 {
+		sort.Strings(files)
+		for fi, f := range files {
+			data, err := os.ReadFile(f)
+			if err != nil {
+				continue
+			}
+			floods = append(floods, data)
+			toks := tokenize(string(data))
+			for k := 1; k <= 4; k++ {
+				lr := NewRng(SubSeed(c.Seed, "sample-layout", fi*10+k))
+				floods = append(floods, []byte(joinLayout(toks, lr, 1+lr.Intn(4), k%2 == 0)))
+			}
+		}
+		c.ev.Fire("repository_sample_program", len(files))
+	}
 	if err := ParallelFor(len(floods), c.Workers, func(i int) error {
 		c.ev.Fire("error_flood_boundary_input", 1)
 		_, err := c16FormatOne(c, pool, 1000000+i, "flood", SubSeed(c.Seed, "flood", i), floods[i])
@@ -82,6 +100,13 @@ func runC16(c *Ctx) error {
 	if nso > 0 {
 		c.logf("library export: %d host histories through the real libpacketdsl.so and a C host", nso)
 		if err := ParallelFor(nso, c.Workers, func(i int) error { return c16Host(c, pool, i, 120, true) }); err != nil {
+			return err
+		}
+	}
+	if nso > 0 {
+		nconc := envInt("VERIF_C16_CONCURRENT", 30)
+		c.logf("library export: %d free-running multi-threaded histories through the real libpacketdsl.so (uncontrolled interleaving)", nconc)
+		if err := ParallelFor(nconc, 4, func(i int) error { return c16HostConcurrent(c, pool, i) }); err != nil {
 			return err
 		}
 	}
@@ -520,6 +545,71 @@ func c16Host(c *Ctx, pool *Pool, i int, n int, realSO bool) error {
 	return nil
 }
 
+// c16HostConcurrent: several real threads inside the exported function at
+// once. The interleaving is the operating system's, not the simulator's: this
+// is the uncontrolled complement of the call-granularity host histories. A
+// mismatch is confirmed by repetition and replays statistically.
+func c16HostConcurrent(c *Ctx, pool *Pool, i int) error {
+	seed := SubSeed(c.Seed, "c16conc", i)
+	r := NewRng(seed)
+	spec := &HostSpec{Threads: 8, Concurrent: true}
+	refs := map[string]*Resp{}
+	for k := 0; k < 240; k++ {
+		in := FormatInputLayout(SubSeed(seed, "in", r.Intn(40)), r.Intn(3))
+		if bytes.Contains(in, []byte{0}) || len(in) > 200000 {
+			continue
+		}
+		ref, ok := refs[string(in)]
+		if !ok {
+			var err error
+			if ref, err = formatRef(pool, in); err != nil {
+				return err
+			}
+			refs[string(in)] = ref
+		}
+		if ref.TimedOut || ref.Crashed != "" || ref.ParsePanic != "" {
+			continue
+		}
+		spec.Calls = append(spec.Calls, HostCall{Thread: r.Intn(spec.Threads), Input: in})
+	}
+	run := func() (int, *c16Viol, error) {
+		res, err := runHost(c, spec, true)
+		if err != nil || res == nil {
+			return -1, nil, err
+		}
+		for k, call := range spec.Calls {
+			if v := checkHostCall(refs[string(call.Input)], &res[k]); v != nil {
+				return k, v, nil
+			}
+		}
+		return -1, nil, nil
+	}
+	k, v, err := run()
+	if err != nil {
+		return err
+	}
+	c.ev.Count("concurrent_host_histories", 1)
+	c.ev.Fire("host_threads_truly_concurrent", len(spec.Calls))
+	if v == nil {
+		return nil
+	}
+	// confirm by repetition
+	again := 0
+	for t := 0; t < 5; t++ {
+		if _, v2, err := run(); err == nil && v2 != nil {
+			again++
+		}
+	}
+	if again == 0 {
+		c.ev.Count("unconfirmed_candidates", 1)
+		c.logf("concurrent host mismatch (history %d, call %d, %s) did not recur in 5 repetitions: not reported", i, k, v.class)
+		return nil
+	}
+	rf := &ReplayFile{Property: "C16", Kind: "so-c16-concurrent", RunSeed: c.Seed, Case: i, Host: spec, Expect: map[string]any{"entry": "FormatPacketDslExport", "class": v.class, "recurred_in_5_repetitions": again}}
+	c.report("C16|lib|concurrent|"+v.class, "with 8 host threads inside the exported function at once: "+v.msg+" (uncontrolled interleaving; replays statistically)", v.diffs, rf)
+	return nil
+}
+
 func checkHostCall(ref *Resp, got *hostResult) *c16Viol {
 	if got.Panic != "" {
 		return &c16Viol{"panic", "the exported function panicked: " + got.Panic, nil}
@@ -562,7 +652,11 @@ func runHost(c *Ctx, spec *HostSpec, realSO bool) ([]hostResult, error) {
 		if err := os.WriteFile(binSpec, b.Bytes(), 0o644); err != nil {
 			return nil, infraf("host spec: %v", err)
 		}
-		cmd = exec.Command(c.sc.CHost, c.sc.RealSO, binSpec, sp.Out)
+		if sp.Concurrent {
+			cmd = exec.Command(c.sc.CHost, c.sc.RealSO, binSpec, sp.Out, "concurrent")
+		} else {
+			cmd = exec.Command(c.sc.CHost, c.sc.RealSO, binSpec, sp.Out)
+		}
 	} else {
 		cmd = exec.Command(c.sc.SimCLI)
 		cmd.Env = append(os.Environ(), "VERIF_HOST="+specPath)
